@@ -131,3 +131,18 @@ pub fn gen_tail(rng: &mut Rng, beats: usize) -> Vec<Op> {
     }
     ops
 }
+
+/// In a quarter of the scripts the host changes its mind about an external function in mid-story:
+/// it unbinds one and, half of the time, binds it again later.
+pub fn sprinkle_binding_changes(rng: &mut Rng, prog: &Program, ops: &mut Vec<Op>) {
+    if prog.info.externals.is_empty() || ops.is_empty() || !rng.chance(1, 4) {
+        return;
+    }
+    let name = rng.pick(&prog.info.externals).0.clone();
+    let at = rng.below(ops.len());
+    ops.insert(at, Op::Unbind { name: name.clone() });
+    if rng.chance(1, 2) {
+        let at2 = at + 1 + rng.below(ops.len() - at);
+        ops.insert(at2, Op::Bind { name, safe: rng.chance(1, 2) });
+    }
+}
